@@ -5,7 +5,6 @@ use crate::actions::*;
 use crate::chain::*;
 use crate::deploy::*;
 use crate::explore::*;
-use crate::hubcore::fx_attr;
 use crate::obs::*;
 use sha2::Sha256;
 
@@ -164,11 +163,6 @@ pub fn c05_step(po: &HubObs, g: &FeeCfg, a: &Action, out: &Outcome, qo: &HubObs,
             let before = po.requests.get(&u).and_then(|r| r.iter().find(|x| x.0 == id)).map(|x| x.1).unwrap_or(0);
             let after = qo.requests.get(&u).and_then(|r| r.iter().find(|x| x.0 == id)).map(|x| x.1).unwrap_or(0);
             let credited = after.saturating_sub(before);
-            if let Some(attr) = fx_attr(out.fx(), HUB, "unbonded_amount").and_then(|s| s.parse::<u128>().ok()) {
-                if attr != credited {
-                    cx.viol("C05.unbond_credit", "unbonded_amount attribute differs from the recorded claim", format!("{}: attr {} recorded {} -> {}", a.label, attr, before, after));
-                }
-            }
             triple = Some((amt, credited, amt));
         } else if hookname == "convert" && tok == STSEI {
             path = "convert_st_b";
